@@ -157,6 +157,10 @@ func init() {
 			i.w.guards = append(i.w.guards, g)
 			return nil
 		},
+		"vConcreteClock": func(i *interpreter, fr *frame, fn *ssa.Function, a []value) value {
+			i.w.clockStep = asInt64(a[0])
+			return nil
+		},
 		"vPreemptAtLocks": func(i *interpreter, fr *frame, fn *ssa.Function, a []value) value {
 			i.w.preemptLeft = int(asInt64(a[0]))
 			i.w.usesSched = true
